@@ -848,3 +848,39 @@ func (g *Gen) bindClosureEnv(fr *Frame, st *State) {
 		}
 	}
 }
+
+// callAnchorsInvoke: "assert at call Method" for interface method calls; cmd / args are bound
+// for the common Do(cmd string, args ...interface{}) shape, otherwise the parameter names.
+func (g *Gen) callAnchorsInvoke(fr *Frame, st *State, c *ssa.CallCommon, args []Val) {
+	con := g.anchorContract(fr)
+	if con == nil || g.specMode {
+		return
+	}
+	name := c.Method.Name()
+	for _, s := range con.Sets {
+		if s.Call == name {
+			g.ghostSet(fr, st, s, nil)
+		}
+	}
+	for _, a := range con.Asserts {
+		if a.Call != name {
+			continue
+		}
+		env := g.envFor(fr, st)
+		sig := c.Method.Type().(*types.Signature)
+		for i := 0; i < sig.Params().Len() && i < len(args); i++ {
+			n := sig.Params().At(i).Name()
+			if n == "" || n == "_" {
+				n = fmt.Sprintf("arg%d", i)
+			}
+			if args[i].T != "" {
+				env.vars[n] = CV{T: args[i].T, Ty: sig.Params().At(i).Type()}
+				env.vars[fmt.Sprintf("arg%d", i)] = env.vars[n]
+			}
+		}
+		goal := env.evalBool(a.Clause.Expr)
+		g.callSeq["callanchor:"+name+":"+a.Clause.Label]++
+		n := g.callSeq["callanchor:"+name+":"+a.Clause.Label]
+		g.oblige(st, "assert", fmt.Sprintf("%s/assert at call %s#%d/%s", g.fnName(), name, n, a.Clause.Label), goal, a.Clause, nil)
+	}
+}
